@@ -1738,10 +1738,10 @@ func main() {
 		"a case that fails in several ways reports the failure of the most specific class first; the idf message/value mismatch (key explain:idf-formula) is reported by every case that has nothing else to report",
 		"all corpora are single-segment indexes without deletions (layout independence of scores is C08's subject)",
 	}
-	c.AddEnum(explore.Enumerate(explore.EnumConfig{Name: "c17-direct", Param: c.Tier, Budget: c.PickD(10*time.Second, 2*time.Minute)}))
-	c.AddEnum(explore.Enumerate(explore.EnumConfig{Name: "c17-corpora", Param: c.Tier, Budget: c.PickD(32*time.Second, 8*time.Minute)}))
-	c.AddEnum(explore.Enumerate(explore.EnumConfig{Name: "c17-kinds", Param: c.Tier, Budget: c.PickD(8*time.Second, time.Minute), Chunk: 1}))
-	c.AddEnum(explore.Enumerate(explore.EnumConfig{Name: "c17-sequences", Param: c.Tier, Budget: c.PickD(12*time.Second, 2*time.Minute)}))
+	c.AddEnum(explore.Enumerate(explore.EnumConfig{Name: "c17-direct", Param: c.Tier, Budget: c.PickD(8*time.Second, 2*time.Minute)}))
+	c.AddEnum(explore.Enumerate(explore.EnumConfig{Name: "c17-corpora", Param: c.Tier, Budget: c.PickD(28*time.Second, 8*time.Minute)}))
+	c.AddEnum(explore.Enumerate(explore.EnumConfig{Name: "c17-kinds", Param: c.Tier, Budget: c.PickD(5*time.Second, time.Minute), Chunk: 1}))
+	c.AddEnum(explore.Enumerate(explore.EnumConfig{Name: "c17-sequences", Param: c.Tier, Budget: c.PickD(8*time.Second, 2*time.Minute)}))
 	c.Extra["queries_per_corpus"] = len(queriesOf(c.Tier))
 	c.Finish()
 }
